@@ -1,7 +1,13 @@
 #!/bin/bash
 # tools/seeded_eval.sh <patch.diff> <Cxx> [more Cyy...]: apply a seeded regression to /repo, run the checks, reverse it.
-# Prints the VIOLATION / exit lines. Never leaves /repo modified (reverse-applies the same patch).
+# Prints the VIOLATION / exit lines. Never leaves /repo modified (reverse-applies the same patch). Holds the
+# exclusive /verif/work/repo.lock meanwhile (ordinary ./check runs hold it shared), so concurrent checks of other
+# people never see the modified tree and two seeded regressions are never applied at once.
 P=$1; shift
+mkdir -p /verif/work
+exec 9>/verif/work/repo.lock
+flock -x 9
+export VERIF_REPO_LOCKED=1
 git -C /repo apply --check "$P" || { echo "patch does not apply"; exit 2; }
 git -C /repo apply "$P"
 trap 'git -C /repo apply -R "$P"' EXIT
@@ -9,4 +15,5 @@ for c in "$@"; do
   out=$(cd /verif && ./check $c 2>&1); rc=$?
   echo "== $c exit=$rc"
   echo "$out" | grep "^VIOLATION" | cut -c1-260 | sort | uniq -c | sort -rn | head -12
+  [ -n "$SEEDED_EVAL_LOG" ] && echo "$out" > "$SEEDED_EVAL_LOG.$c"
 done
